@@ -114,7 +114,7 @@ def sec_constraints(draw):
 
 
 @st.composite
-def tracker_ops(draw, visual, batch, nobj, scenes):
+def tracker_ops(draw, visual, batch, nobj, scenes, occluder=False):
     # well separated objects: unambiguous (tie-free) associations
     ops = []
     nsteps = draw(st.integers(1, 14))
@@ -145,7 +145,7 @@ def tracker_ops(draw, visual, batch, nobj, scenes):
         ops.append({"op": "epoch", "scene": 0, "default_scene": False})
         return ops
     for _ in range(nsteps):
-        kind = draw(st.sampled_from(["predict"] * 6 + ["skip", "skip", "epoch", "wasted", "wasted", "idle", "clear_wasted", "stats"] + (["predict_multi"] * 3 if batch and len(scenes) > 1 else [])))
+        kind = draw(st.sampled_from(["predict"] * 6 + ["skip", "skip", "epoch", "wasted", "wasted", "idle", "clear_wasted", "stats"] + (["predict_multi"] * 3 if batch and len(scenes) > 1 else []) + (["predict_pipelined"] * 2 if batch else [])))
         scene = draw(st.sampled_from(scenes))
         if kind == "predict_multi":
             # one request with several scenes
@@ -165,6 +165,24 @@ def tracker_ops(draw, visual, batch, nobj, scenes):
                     parts.append({"scene": sc, "dets": dets})
             ops.append({"op": "predict_multi", "parts": parts})
             continue
+        if kind == "predict_pipelined":
+            # two single-scene batches submitted back to back, results collected afterwards
+            frames = []
+            for _ in range(2):
+                t[scene] += 1
+                dets = []
+                for o in range(nobj):
+                    d = {"box": {"ctor": "new_with_confidence", "xc": f32(100.0 + 250.0 * o + 2.0 * t[scene]), "yc": f32(100.0 + 40.0 * (o % 2)), "angle": None, "aspect": f32(0.8 + 0.1 * o), "height": f32(50.0 + o), "confidence": 1.0}, "custom": o}
+                    if visual:
+                        d["feature"] = [f32(math.cos(o * 1.3 + k)) for k in range(4)]
+                        d["quality"] = 0.9
+                    dets.append(d)
+                    if visual and occluder and o == 0:
+                        dets.append({"box": {"ctor": "new_with_confidence", "xc": f32(d["box"]["xc"] + 13.37), "yc": f32(d["box"]["yc"] + 9.21), "angle": None, "aspect": f32(1.1), "height": f32(41.3), "confidence": 1.0},
+                                     "custom": 77, "feature": [f32(math.cos(7.7 + k)) for k in range(4)], "quality": 0.9})
+                frames.append(dets)
+            ops.append({"op": "predict_pipelined", "scene": scene, "frames": frames})
+            continue
         if kind == "predict":
             t[scene] += 1
             dets = []
@@ -179,6 +197,11 @@ def tracker_ops(draw, visual, batch, nobj, scenes):
                     d["feature"] = draw(st.one_of(st.none(), st.just([f32(math.cos(o * 1.3 + k) + 0.01 * draw(st.integers(0, 3))) for k in range(4)])))
                     d["quality"] = draw(st.one_of(st.none(), fl(0.1, 1.0)))
                 dets.append(d)
+                if visual and occluder and o == 0:
+                    # a second object partly in front of object 0 (general position: object 0 is rotated,
+                    # the occluder axis-aligned, offsets fixed): object 0 owns only part of its area
+                    dets.append({"box": {"ctor": "new_with_confidence", "xc": f32(x + 13.37), "yc": f32(y + 9.21), "angle": None, "aspect": f32(1.1), "height": f32(41.3), "confidence": 1.0},
+                                 "custom": 77, "feature": [f32(math.cos(7.7 + k)) for k in range(4)], "quality": 0.9})
             ops.append({"op": "predict", "scene": scene, "default_scene": (scene == 0 and not batch and draw(st.booleans())), "dets": dets})
         elif kind == "skip":
             # expiry boundaries: gaps around the documented default idle limits (2 and 5)
@@ -237,13 +260,16 @@ def sec_visual(draw):
     maybe("visual_minimal_area", fl(0.0, 3000.0))
     maybe("visual_minimal_quality_use", fl(0.0, 0.6))
     maybe("visual_minimal_quality_collect", fl(0.0, 0.6))
+    maybe("visual_minimal_own_area_percentage_use", fl(0.0, 0.95))
+    maybe("visual_minimal_own_area_percentage_collect", fl(0.0, 0.95))
+    occluder = draw(st.booleans())
     maybe("positional_min_confidence", fl(0.05, 0.6))
     maybe("kalman_position_weight", fl(0.02, 0.1))
     maybe("kalman_velocity_weight", fl(0.003, 0.02))
     maybe("constraints", st.just([[1, 1.0], [3, 2.0]]))
     scenes = draw(st.sampled_from([[0], [0, 3]]))
     nobj = draw(st.integers(1, 3))
-    return {"kind": "batch_visual" if batch else "visual", "shards": draw(st.integers(1, 3)), "voting_shards": draw(st.integers(1, 2)), "opts": o, "ops": draw(tracker_ops(True, batch, nobj, scenes))}
+    return {"kind": "batch_visual" if batch else "visual", "shards": draw(st.integers(1, 3)), "voting_shards": draw(st.integers(1, 2)), "opts": o, "ops": draw(tracker_ops(True, batch, nobj, scenes, occluder))}
 
 
 section = st.one_of(sec_bbox(), sec_ubox(), sec_geom(), sec_nms(), sec_kf_box(), sec_kf_point(), sec_constraints(), sec_sort(), sec_sort(), sec_visual(), sec_visual())
@@ -504,6 +530,21 @@ def run_tracker(s):
             nres = res.batch_size()
             got = [res.get() for _ in range(nres)]
             out.append([nres, sorted([[sc, [track_trace(t) for t in ts]] for (sc, ts) in got], key=lambda x: x[0])])
+        elif n == "predict_pipelined":
+            ress = []
+            for dets in op["frames"]:
+                req = S.VisualSortPredictionBatchRequest() if visual else S.SortPredictionBatchRequest()
+                for d in dets:
+                    if visual:
+                        req.add(op["scene"], S.VisualSortObservation(d.get("feature"), d.get("quality"), mk_ubox(d["box"]), d["custom"]))
+                    else:
+                        req.add(op["scene"], mk_ubox(d["box"]), d["custom"])
+                ress.append(tr.predict(req))
+            frames_out = []
+            for res in ress:
+                got = [res.get() for _ in range(res.batch_size())]
+                frames_out.append(sorted([[sc, [track_trace(t) for t in ts]] for (sc, ts) in got], key=lambda x: x[0]))
+            out.append(frames_out)
         elif n == "skip":
             if op["default_scene"]:
                 tr.skip_epochs(op["n"])
@@ -625,15 +666,34 @@ def nontrivial(script):
         if s["kind"] in ("bbox", "ubox"):
             return True  # touches every getter of the class
         if s["kind"] in ("sort", "batch_sort", "visual", "batch_visual"):
-            preds = [o for o in s["ops"] if (o["op"] == "predict" and len(o["dets"]) >= 2) or o["op"] == "predict_multi"]
+            preds = [o for o in s["ops"] if (o["op"] == "predict" and len(o["dets"]) >= 2) or o["op"] in ("predict_multi", "predict_pipelined")]
             if len(preds) >= 3 and any(o["op"] in ("wasted", "idle") for o in s["ops"]):
                 return True
     return False
 
 
+# A call that does not return cannot be interrupted from Python (the main thread may hold the GIL
+# inside the extension): faulthandler's watchdog is a C thread that needs no GIL; it dumps the
+# stack and ends the process. The launcher finds out from the marker file which side was running.
+import faulthandler  # noqa: E402
+HANG_S = float(os.environ.get("SV_C18_HANG_S", "60"))
+CUR = args.out + ".current"
+
+
+def mark(phase, script):
+    with open(CUR, "w") as f:
+        json.dump({"phase": phase, "script": script}, f)
+
+
 def compare(script):
-    py = canon(run_py(script))
+    mark("rust", script)
+    faulthandler.dump_traceback_later(HANG_S, exit=True)
     rs = canon(drv.run(script))
+    faulthandler.cancel_dump_traceback_later()
+    mark("python", script)
+    faulthandler.dump_traceback_later(HANG_S, exit=True)
+    py = canon(run_py(script))
+    faulthandler.cancel_dump_traceback_later()
     if isinstance(rs, dict):
         return f"driver failure: {rs}"
     if len(py) != len(rs):
@@ -687,3 +747,7 @@ else:
 
 result.update(evaluations=stats["evaluations"], distinct_nontrivial=len(stats["nontrivial"]), labels=stats["labels"], samples=stats["samples"], wall_s=time.time() - t0)
 json.dump(result, open(args.out, "w"))
+try:
+    os.remove(CUR)
+except OSError:
+    pass
